@@ -1,8 +1,10 @@
 package checks
 
 import (
+	"encoding/json"
 	"fmt"
 	"hash/fnv"
+	"reflect"
 	"runtime"
 	"sort"
 	"strings"
@@ -30,6 +32,12 @@ import (
 // conc / conc-race: 8 goroutines call GetOrAddFeature for 2-3 (type, role) pairs and NextFeatureId on
 // one entity while a rendezvous at GetOrAddFeature.afterMiss holds the first k of them between the
 // lookup miss and the creation.
+//
+// notify-window / notify-window-race: the connection writer of a subscribed peer is slow (TCP back-pressure): it
+// parks the AddEntity / RemoveEntity call inside the write of the "added" / "removed" notification until the
+// peer's own connection-reader goroutine has sent a detailed discovery read and a read addressed to a feature
+// of the announced entity and has got the answers. Causal oracle: what the peer reads AFTER it has seen the
+// notification must agree with the notification.
 
 var c07Types = []model.FeatureTypeType{model.FeatureTypeTypeLoadControl, model.FeatureTypeTypeMeasurement, model.FeatureTypeTypeSetpoint,
 	model.FeatureTypeTypeElectricalConnection, model.FeatureTypeTypeDeviceConfiguration, model.FeatureTypeTypeTimeSeries, model.FeatureTypeTypeDeviceDiagnosis,
@@ -48,20 +56,28 @@ func init() {
 			"conc: case = (k of the rendezvous, number of (type, role) pairs, how many of them exist beforehand), 8 goroutines; non-trivial if the rendezvous at GetOrAddFeature.afterMiss completed with all k goroutines inside the window and two of them asked for the same (type, role); " +
 			"distinct = distinct (configuration, arrival order of the goroutines at the hook). " +
 			"read-conc: case = local device with 4-6 entities; one goroutine sends 40 discovery reads as a peer while another removes and re-adds entities that are not the last of the list (seeded order); every reply must equal one of the " +
-			"entity sets that were current between the call and the return of that read (logical stamps); non-trivial if at least one read overlapped a RemoveEntity/AddEntity call; distinct = distinct (entity count, operation order, number of overlapped reads).",
+			"entity sets that were current between the call and the return of that read (logical stamps); non-trivial if at least one read overlapped a RemoveEntity/AddEntity call; distinct = distinct (entity count, operation order, number of overlapped reads). " +
+			"notify-window: case = local device with 0-2 entities, 1-3 peers subscribed to NodeManagement (seeded subset of them, at least one, with a connection writer that blocks inside the write of an entity notification until the peer's " +
+			"reader goroutine has issued a discovery read, FeatureByAddress for every announced address and a read to a seeded feature of the announced entity; bounded wait, an expired wait is counted and makes the case inconclusive) and a seeded history of 5-8 AddEntity / RemoveEntity / re-AddEntity calls; " +
+			"a read issued after the 'added [x]' notification was handed to the writer must list x with its features and a read to an announced feature must be answered as the same read is answered after the call returned; a read issued after 'removed [x]' must not list x; " +
+			"non-trivial if at least one 'added' and one 'removed' window were forced and judged; distinct = distinct (subscriber count, which of them are reactive, operation kinds with feature counts).",
 		Assumptions: []string{
 			"message handling and AddEntity/RemoveEntity notifications are synchronous, so the taps are complete when the call returns",
 			"not demanded: the entity description in the announcement, the partial sub-flags of operations, the content of the feature list of a 'removed' notification, datagrams other than detailed discovery data (use case notifications accompany RemoveEntity)",
 			"AddFunctionType is only called once per function and only on server features (it is documented to ignore client features); the heartbeat function is not added (C16)",
 			"the reference for the stack-built entity [0] is read through Features()/Operations(); for all other entities it is what the harness passed to the API",
 			"'each peer subscribed to node management' includes the peers whose entry follows that of a peer with a broken connection: the mute peer (SetupRemoteDevice with a nil writer) is not observed itself, only its effect on the others",
+			"notify-window: 'at every moment' is read causally: a peer that has been handed the notification about entity x on its connection and then sends a read gets an answer that is consistent with that notification (x listed with its features after 'added', not listed after 'removed'); " +
+				"whether a message to a feature of a REMOVED entity is still served is not judged; the read to an announced feature is judged differentially (same class and error number as the same read after the call returned), not against C01's rules",
 		},
 		Parts: []rig.Part{
 			{Name: "sequential", Cases: func(t rig.Tier) int { return map[rig.Tier]int{rig.Quick: 300, rig.Thorough: 5000}[t] }, Run: c07Seq, Procs: 2},
 			{Name: "conc", Cases: func(t rig.Tier) int { return map[rig.Tier]int{rig.Quick: 200, rig.Thorough: 4000}[t] }, Run: c07Conc, Procs: 8, Workers: 8, Quiet: 90 * time.Second},
 			{Name: "conc-race", Race: true, Cases: func(t rig.Tier) int { return map[rig.Tier]int{rig.Quick: 60, rig.Thorough: 800}[t] }, Run: c07Conc, Procs: 8, Workers: 8, Quiet: 120 * time.Second},
 			{Name: "read-conc", Cases: func(t rig.Tier) int { return map[rig.Tier]int{rig.Quick: 160, rig.Thorough: 3000}[t] }, Run: c07ReadConc, Procs: 4, Workers: 8, Quiet: 90 * time.Second},
-			{Name: "read-conc-race", Race: true, Cases: func(t rig.Tier) int { return map[rig.Tier]int{rig.Quick: 40, rig.Thorough: 500}[t] }, Run: c07ReadConc, Procs: 4, Workers: 8, Quiet: 120 * time.Second},
+			{Name: "read-conc-race", Race: true, Cases: func(t rig.Tier) int { return map[rig.Tier]int{rig.Quick: 40, rig.Thorough: 500}[t] }, Run: c07ReadConc, Procs: 4, Workers: 16, Chunk: 3, Quiet: 120 * time.Second},
+			{Name: "notify-window", Cases: func(t rig.Tier) int { return map[rig.Tier]int{rig.Quick: 160, rig.Thorough: 3000}[t] }, Run: c07Window, Procs: 4, Workers: 8, Quiet: 90 * time.Second},
+			{Name: "notify-window-race", Race: true, Cases: func(t rig.Tier) int { return map[rig.Tier]int{rig.Quick: 32, rig.Thorough: 480}[t] }, Run: c07Window, Procs: 2, Workers: 16, Chunk: 2, Quiet: 120 * time.Second},
 		},
 	})
 }
@@ -1139,4 +1155,530 @@ func c07ReadConc(c *rig.Ctx) {
 	c.Shape(fmt.Sprintf("n=%d ops=%x overlapped=%d", nEnt, h.Sum64(), overlapped))
 	c.NonTrivial(overlapped > 0)
 	c.Sample(map[string]any{"entities": nEnt, "operations": kinds, "reads": nReads, "reads_overlapping_an_operation": overlapped})
+}
+
+// ---- reads placed between an entity notification and the return of AddEntity / RemoveEntity
+
+// c07WinPlan is what the reader goroutine of a reactive peer does once it has seen an entity notification
+// (drawn by the case's goroutine from c.Rand before the call, so the reader draws nothing itself).
+type c07WinPlan struct {
+	featAddr *model.FeatureAddressType // a feature of the entity that is about to be added (nil: no feature read)
+	featFn   model.FunctionType
+}
+
+// c07WinEv is one entity notification as the slow writer saw it.
+type c07WinEv struct {
+	state model.NetworkManagementStateChangeType
+	ent   string                      // "[1,1]"
+	seq   int64                       // logical stamp taken after the notification was handed to the connection
+	anns  []*model.FeatureAddressType // the feature addresses it announces
+	done  chan struct{}
+}
+
+// c07Reaction is what the reader goroutine did and saw inside one window.
+type c07Reaction struct {
+	ev                *c07WinEv
+	discMc, featMc    model.MsgCounterType
+	discCall, discRet int64
+	feat              *c07WinPlan
+	unresolved        []string // announced addresses that FeatureByAddress did not resolve to a feature with that address
+	resolved          int
+}
+
+// c07ReactWriter is the connection writer of a "reactive" peer. Every datagram is handed to the peer's ordinary
+// rig.Tap first. If the datagram is a detailed discovery notification describing one entity as added or
+// removed and the writer is armed, the write then stays parked (as a socket write under back-pressure does)
+// until the peer's reader goroutine has finished its reaction, bounded by max. An expired wait is counted and
+// never judged.
+type c07ReactWriter struct {
+	tap  *rig.Tap
+	max  time.Duration
+	ev   chan *c07WinEv
+	quit chan struct{}
+	gone chan struct{}
+
+	mu                   sync.Mutex
+	armed                bool
+	plan                 c07WinPlan
+	dispatched, finished int
+	expired              int
+	recs                 []*c07Reaction
+}
+
+func newC07ReactWriter() *c07ReactWriter {
+	return &c07ReactWriter{max: 20 * time.Second, ev: make(chan *c07WinEv, 1), quit: make(chan struct{}), gone: make(chan struct{})}
+}
+
+func (x *c07ReactWriter) WriteShipMessageWithPayload(m []byte) {
+	x.tap.WriteShipMessageWithPayload(m) // the notification is on the connection from here on
+	x.mu.Lock()
+	armed := x.armed
+	x.mu.Unlock()
+	if !armed {
+		return
+	}
+	var d model.Datagram
+	if json.Unmarshal(m, &d) != nil {
+		return
+	}
+	h, pl := d.Datagram.Header, d.Datagram.Payload
+	if h.CmdClassifier == nil || *h.CmdClassifier != model.CmdClassifierTypeNotify || len(pl.Cmd) != 1 || pl.Cmd[0].NodeManagementDetailedDiscoveryData == nil {
+		return
+	}
+	dd := pl.Cmd[0].NodeManagementDetailedDiscoveryData
+	if len(dd.EntityInformation) != 1 || dd.EntityInformation[0].Description == nil || dd.EntityInformation[0].Description.EntityAddress == nil || dd.EntityInformation[0].Description.LastStateChange == nil {
+		return
+	}
+	ed := dd.EntityInformation[0].Description
+	if *ed.LastStateChange != model.NetworkManagementStateChangeTypeAdded && *ed.LastStateChange != model.NetworkManagementStateChangeTypeRemoved {
+		return
+	}
+	ev := &c07WinEv{state: *ed.LastStateChange, ent: c06KeyM(ed.EntityAddress.Entity), seq: rig.Seq(), done: make(chan struct{})}
+	for _, fi := range dd.FeatureInformation {
+		if fi.Description != nil && fi.Description.FeatureAddress != nil {
+			ev.anns = append(ev.anns, fi.Description.FeatureAddress)
+		}
+	}
+	x.mu.Lock()
+	x.dispatched++
+	x.mu.Unlock()
+	t := time.NewTimer(x.max)
+	defer t.Stop()
+	select {
+	case x.ev <- ev:
+	case <-t.C:
+		x.mu.Lock()
+		x.expired++
+		x.finished++ // nobody will react to this one
+		x.mu.Unlock()
+		return
+	}
+	select {
+	case <-ev.done:
+	case <-t.C:
+		x.mu.Lock()
+		x.expired++
+		x.mu.Unlock()
+	}
+}
+
+func (x *c07ReactWriter) arm(pl c07WinPlan) {
+	x.mu.Lock()
+	x.armed, x.plan = true, pl
+	x.mu.Unlock()
+}
+
+func (x *c07ReactWriter) disarm() { x.mu.Lock(); x.armed = false; x.mu.Unlock() }
+
+func (x *c07ReactWriter) idle() bool {
+	x.mu.Lock()
+	defer x.mu.Unlock()
+	return x.dispatched == x.finished
+}
+
+func (x *c07ReactWriter) take() (recs []*c07Reaction, expired int) {
+	x.mu.Lock()
+	defer x.mu.Unlock()
+	recs, expired = x.recs, x.expired
+	x.recs, x.expired = nil, 0
+	return
+}
+
+// reader is the peer's connection-reader goroutine: messages of this connection are delivered by it (inside a
+// window) or by the case's goroutine (outside of any window), never by both at once.
+func (x *c07ReactWriter) reader(p *rig.Peer, local *spine.DeviceLocal) {
+	defer close(x.gone)
+	for {
+		select {
+		case <-x.quit:
+			return
+		case ev := <-x.ev:
+			x.mu.Lock()
+			pl := x.plan
+			x.mu.Unlock()
+			rec := &c07Reaction{ev: ev}
+			// 1. the complete detailed discovery data
+			rec.discCall = rig.Seq()
+			rec.discMc = p.Send(model.CmdClassifierTypeRead, p.NM(), rig.LNM, false, nil, model.CmdType{NodeManagementDetailedDiscoveryData: &model.NodeManagementDetailedDiscoveryDataType{}})
+			rec.discRet = rig.Seq()
+			if ev.state == model.NetworkManagementStateChangeTypeAdded {
+				// 2. every announced address resolves
+				for _, a := range ev.anns {
+					f := local.FeatureByAddress(a)
+					if rig.IsNil(f) {
+						rec.unresolved = append(rec.unresolved, a.String()+" -> nil")
+					} else if f.Address().String() != a.String() {
+						rec.unresolved = append(rec.unresolved, a.String()+" -> "+f.Address().String())
+					} else {
+						rec.resolved++
+					}
+				}
+				// 3. a read addressed to a feature of the announced entity
+				if pl.featAddr != nil {
+					cp := pl
+					rec.feat = &cp
+					rec.featMc = p.Send(model.CmdClassifierTypeRead, p.NM(), pl.featAddr, false, nil, c07ReadCmd(pl.featFn))
+				}
+			}
+			x.mu.Lock()
+			x.recs = append(x.recs, rec)
+			x.finished++
+			x.mu.Unlock()
+			close(ev.done)
+		}
+	}
+}
+
+func c07ReadCmd(fn model.FunctionType) model.CmdType {
+	for _, fi := range rig.CmdFields() {
+		if fi.Fn == fn {
+			return rig.CmdFor(fn, reflect.New(fi.T).Interface())
+		}
+	}
+	panic("harness: no command field for function " + string(fn))
+}
+
+// c07RespClass renders how a request was answered: reply / success / error:<number> / none / several.
+func c07RespClass(res rig.Resp) string {
+	switch {
+	case len(res.All) == 0:
+		return "none"
+	case len(res.All) > 1:
+		return fmt.Sprintf("several(%d)", len(res.All))
+	case res.Replies == 1:
+		return "reply"
+	case res.Success == 1:
+		return "success"
+	case res.Errors == 1:
+		d := res.All[0]
+		if len(d.Payload.Cmd) == 1 && d.Payload.Cmd[0].ResultData != nil && d.Payload.Cmd[0].ResultData.ErrorNumber != nil {
+			s := fmt.Sprintf("error:%d", *d.Payload.Cmd[0].ResultData.ErrorNumber)
+			if d.Payload.Cmd[0].ResultData.Description != nil {
+				s += fmt.Sprintf("(%s)", *d.Payload.Cmd[0].ResultData.Description)
+			}
+			return s
+		}
+		return "error:?"
+	}
+	return "other"
+}
+
+func c07Window(c *rig.Ctx) {
+	r := c.Rand
+	w := rig.NewWorld(c.Tag())
+	defer w.Close()
+	local := w.Local
+
+	type ent struct {
+		obj     *spine.EntityLocal
+		addr    []uint
+		key     string
+		typ     model.EntityTypeType
+		feats   []api.FeatureLocalInterface
+		fallbk  map[uint]model.FunctionType // per feature number: a function of its type (used when it has none added)
+		present bool
+	}
+	var ents []*ent
+	var trace, kinds []string
+	newEntity := func() *ent {
+		var addr []uint
+		for _, i := range r.Perm(len(c07EntDom)) {
+			used := false
+			for _, e := range ents {
+				if e.key == c06Key(c07EntDom[i]) {
+					used = true
+				}
+			}
+			if !used {
+				addr = c07EntDom[i]
+				break
+			}
+		}
+		if addr == nil {
+			return nil
+		}
+		e := &ent{addr: addr, key: c06Key(addr), typ: c07EntTypes[r.Intn(len(c07EntTypes))], fallbk: map[uint]model.FunctionType{}}
+		e.obj = spine.NewEntityLocal(local, e.typ, spine.NewAddressEntityType(addr), 4*time.Second)
+		for _, ti := range r.Perm(len(c07Types))[:1+r.Intn(3)] {
+			ro := model.RoleTypeServer
+			if r.Intn(4) == 0 {
+				ro = model.RoleTypeClient
+			}
+			f := e.obj.GetOrAddFeature(c07Types[ti], ro)
+			fns := c06FnsOf(c07Types[ti])
+			if len(fns) > 0 {
+				e.fallbk[uint(*f.Address().Feature)] = fns[0].Fn
+			}
+			if ro == model.RoleTypeServer {
+				for _, fi := range r.Perm(len(fns)) {
+					if len(f.Operations()) >= 2 || r.Intn(3) == 0 {
+						break
+					}
+					if fns[fi].Fn != model.FunctionTypeDeviceDiagnosisHeartbeatData {
+						f.AddFunctionType(fns[fi].Fn, r.Intn(3) > 0, r.Intn(2) == 0)
+					}
+				}
+			}
+			e.feats = append(e.feats, f)
+		}
+		ents = append(ents, e)
+		return e
+	}
+	for n := r.Intn(3); n > 0; n-- { // entities that exist before anybody subscribes
+		e := newEntity()
+		local.AddEntity(e.obj)
+		e.present = true
+		trace = append(trace, fmt.Sprintf("AddEntity %s (%d features) before the peers connect", e.key, len(e.feats)))
+	}
+
+	// peers, all subscribed to NodeManagement; a seeded subset (at least one) is reactive
+	nSub := 1 + r.Intn(3)
+	forced := r.Intn(nSub)
+	writers := make([]*c07ReactWriter, nSub)
+	mask := ""
+	for i := 0; i < nSub; i++ {
+		var p *rig.Peer
+		if i == forced || r.Intn(3) > 0 {
+			x := newC07ReactWriter()
+			p = xAddPeer(w, i, func(tap *rig.Tap) xWriter { x.tap = tap; return x })
+			writers[i] = x
+			go x.reader(p, local)
+			defer func() { x.disarm(); close(x.quit); <-x.gone }()
+			mask += "R"
+		} else {
+			p = w.AddPeer(i)
+			mask += "p"
+		}
+		p.Ctr = uint64(i+1) * 100000
+		p.Announce([]rig.FS{rig.NMFS})
+		mc := p.Subscribe(p.NM(), rig.LNM, model.FeatureTypeTypeNodeManagement)
+		if res := rig.Classify(p.Tap.Take(), mc); res.Success != 1 {
+			c.Inconclusive("setup: NodeManagement subscription of peer%d was not acknowledged (%s)", i, res)
+			return
+		}
+	}
+	trace = append(trace, fmt.Sprintf("%d peers subscribed to NodeManagement (R = slow writer + reader goroutine, p = plain): %s", nSub, mask))
+
+	fail := func(sig, format string, a ...any) {
+		c.Violate(sig, "%s\n history so far (last is the failing step):\n   %s", fmt.Sprintf(format, a...), strings.Join(trace, "\n   "))
+		c.Witness(map[string]any{"history": trace})
+	}
+
+	// reference rendering of the device tree
+	wantTree := func() (wantE, wantF []string) {
+		wantE = append(wantE, "[0]")
+		if e0 := local.Entity(spine.DeviceInformationAddressEntity); e0 != nil {
+			for _, f := range e0.Features() {
+				wantF = append(wantF, c07ApiLine(f))
+			}
+		}
+		for _, e := range ents {
+			if e.present {
+				wantE = append(wantE, e.key)
+				for _, f := range e.feats {
+					wantF = append(wantF, c07ApiLine(f))
+				}
+			}
+		}
+		sort.Strings(wantE)
+		sort.Strings(wantF)
+		return
+	}
+	replyTree := func(dd *model.NodeManagementDetailedDiscoveryDataType) (gotE, gotF []string) {
+		for _, ei := range dd.EntityInformation {
+			if ei.Description != nil && ei.Description.EntityAddress != nil {
+				gotE = append(gotE, c06KeyM(ei.Description.EntityAddress.Entity))
+			}
+		}
+		for _, fi := range dd.FeatureInformation {
+			l, _ := c07InfoLine(fi.Description)
+			gotF = append(gotF, l)
+		}
+		sort.Strings(gotE)
+		sort.Strings(gotF)
+		return
+	}
+	has := func(ks []string, k string) bool {
+		for _, x := range ks {
+			if x == k {
+				return true
+			}
+		}
+		return false
+	}
+
+	winAdded, winRemoved := 0, 0
+	nOps := 5 + r.Intn(4)
+	for step := 0; step < nOps && !c.Failed(); step++ {
+		var ps, ab []*ent
+		for _, e := range ents {
+			if e.present {
+				ps = append(ps, e)
+			} else {
+				ab = append(ab, e)
+			}
+		}
+		var e *ent
+		add := false
+		switch op := r.Intn(10); {
+		case op < 3 && len(ab) > 0 && len(ps) < 4:
+			e, add = ab[r.Intn(len(ab))], true
+			kinds = append(kinds, fmt.Sprintf("readd%d", len(e.feats)))
+		case (op < 6 || len(ps) == 0) && len(ps) < 4 && len(ents) < len(c07EntDom):
+			e, add = newEntity(), true
+			kinds = append(kinds, fmt.Sprintf("add%d", len(e.feats)))
+		case len(ps) > 0:
+			e = ps[r.Intn(len(ps))]
+			kinds = append(kinds, "remove")
+		default:
+			continue
+		}
+		// the planned reaction of every reactive peer
+		for i, x := range writers {
+			w.Peers[i].Tap.Take()
+			if x == nil {
+				continue
+			}
+			pl := c07WinPlan{}
+			if add && len(e.feats) > 0 {
+				f := e.feats[r.Intn(len(e.feats))]
+				id := uint(*f.Address().Feature)
+				var fns []model.FunctionType
+				for fn := range f.Operations() {
+					fns = append(fns, fn)
+				}
+				sort.Slice(fns, func(i, j int) bool { return fns[i] < fns[j] })
+				if len(fns) > 0 {
+					pl = c07WinPlan{rig.FA(rig.LocalAddr, e.addr, id), fns[r.Intn(len(fns))]}
+				} else if fb, ok := e.fallbk[id]; ok {
+					pl = c07WinPlan{rig.FA(rig.LocalAddr, e.addr, id), fb}
+				}
+			}
+			x.arm(pl)
+		}
+		what := "RemoveEntity " + e.key
+		state := model.NetworkManagementStateChangeTypeRemoved
+		if add {
+			what, state = fmt.Sprintf("AddEntity %s (%d features)", e.key, len(e.feats)), model.NetworkManagementStateChangeTypeAdded
+		}
+		callSeq := rig.Seq()
+		ok, panicked := rig.Guard(90*time.Second, func() {
+			if add {
+				local.AddEntity(e.obj)
+			} else {
+				local.RemoveEntity(e.obj)
+			}
+		})
+		retSeq := rig.Seq()
+		e.present = add
+		trace = append(trace, fmt.Sprintf("[%d,%d] %s", callSeq, retSeq, what))
+		if panicked != "" {
+			fail("window/panic", "%s: %s", what, panicked)
+			return
+		}
+		if !ok {
+			c.Inconclusive("%s did not return within 90s", what)
+			return
+		}
+		for i, x := range writers {
+			if x == nil {
+				continue
+			}
+			if !rig.WaitFor(60*time.Second, x.idle) {
+				c.Inconclusive("%s: the reader goroutine of peer%d did not finish its reaction within 60s", what, i)
+				return
+			}
+			x.disarm()
+		}
+		wantE, wantF := wantTree()
+		for i, x := range writers {
+			p := w.Peers[i]
+			if n := p.PanicCount(); n > 0 {
+				fail("window/panic", "%s: the stack panicked while handling a message of peer%d: %s", what, i, p.Panics[n-1])
+				return
+			}
+			if x == nil {
+				continue
+			}
+			recs, expired := x.take()
+			if expired > 0 {
+				c.Count("window_waits_expired", int64(expired))
+				c.Inconclusive("%s: the write of the notification to peer%d was released by the watchdog (%v) before the peer's reads had been answered", what, i, x.max)
+				return
+			}
+			if len(recs) == 0 {
+				c.Count("windows_not_forced:no_entity_notification_reached_the_reactive_peer", 1)
+				continue
+			}
+			// the control: the same reads once more, now that the call has returned (this goroutine delivers; the reader is idle)
+			ctlMc := map[*c07Reaction]model.MsgCounterType{}
+			for _, rec := range recs {
+				if rec.feat != nil {
+					ctlMc[rec] = p.Send(model.CmdClassifierTypeRead, p.NM(), rec.feat.featAddr, false, nil, c07ReadCmd(rec.feat.featFn))
+				}
+			}
+			outs := p.Tap.Take()
+			for _, rec := range recs {
+				ev := rec.ev
+				if ev.ent != e.key || ev.state != state {
+					c.Count("windows_on_another_entity_notification", 1)
+					continue
+				}
+				c.Count("windows_forced:"+string(state), 1)
+				wd := fmt.Sprintf("peer%d was handed the '%s %s' notification at stamp %d (inside the call [%d,%d]) and sent a discovery read at [%d,%d]", i, state, ev.ent, ev.seq, callSeq, retSeq, rec.discCall, rec.discRet)
+				res := rig.Classify(outs, rec.discMc)
+				var dd *model.NodeManagementDetailedDiscoveryDataType
+				if res.Replies == 1 && res.Errors == 0 && len(res.All) == 1 && len(res.All[0].Payload.Cmd) == 1 {
+					dd = res.All[0].Payload.Cmd[0].NodeManagementDetailedDiscoveryData
+				}
+				if dd == nil {
+					fail("window/"+string(state)+"/discovery-read-not-answered-with-one-reply", "%s: %s", wd, c07RespClass(res))
+					continue
+				}
+				gotE, gotF := replyTree(dd)
+				c.Events(int64(1 + len(gotE) + len(gotF)))
+				switch {
+				case add && !has(gotE, e.key):
+					fail("window/added/discovery-reply-lacks-the-announced-entity", "%s; the reply lists the entities %v, the device has %v", wd, gotE, wantE)
+				case !add && has(gotE, e.key):
+					fail("window/removed/discovery-reply-still-lists-the-removed-entity", "%s; the reply lists the entities %v, the device has %v", wd, gotE, wantE)
+				case strings.Join(gotE, " ") != strings.Join(wantE, " "):
+					fail("window/"+string(state)+"/discovery-reply-entities-differ", "%s; the reply lists the entities %v, the device has %v", wd, gotE, wantE)
+				case strings.Join(gotF, "\n") != strings.Join(wantF, "\n"):
+					fail("window/"+string(state)+"/discovery-reply-features/"+c07DiffSig(wantF, gotF), "%s; the announced features differ from the tree:\n%s", wd, c06Diff(wantF, gotF))
+				}
+				if add {
+					winAdded++
+					c.Events(int64(rec.resolved + len(rec.unresolved)))
+					if len(rec.unresolved) > 0 {
+						fail("window/added/announced-address-does-not-resolve", "%s; FeatureByAddress inside the window: %v", wd, rec.unresolved)
+					}
+					if len(ev.anns) != len(e.feats) {
+						c.Count("windows_where_the_notification_announced_another_feature_count", 1)
+					}
+					if rec.feat != nil {
+						in, ctl := c07RespClass(rig.Classify(outs, rec.featMc)), c07RespClass(rig.Classify(outs, ctlMc[rec]))
+						c.Events(2)
+						c.Count("window_feature_reads:"+strings.SplitN(in, "(", 2)[0], 1)
+						if strings.SplitN(in, "(", 2)[0] != strings.SplitN(ctl, "(", 2)[0] {
+							sig := "window/added/read-to-announced-feature-answered-differently-than-after-the-call"
+							if strings.HasPrefix(in, "error") && ctl == "reply" {
+								sig = "window/added/read-to-announced-feature-rejected"
+							}
+							fail(sig, "%s and a read of %s to the announced feature %s: answered with %s inside the window, with %s after AddEntity returned", wd, rec.feat.featFn, rkKey(rec.feat.featAddr), in, ctl)
+						}
+					}
+				} else {
+					winRemoved++
+				}
+			}
+		}
+	}
+	h := fnv.New64a()
+	h.Write([]byte(strings.Join(kinds, ";")))
+	c.Shape(fmt.Sprintf("%s %x", mask, h.Sum64()))
+	c.NonTrivial(winAdded >= 1 && winRemoved >= 1)
+	c.Count("window_reactions_judged:added", int64(winAdded))
+	c.Count("window_reactions_judged:removed", int64(winRemoved))
+	c.Sample(map[string]any{"peers": mask, "history": trace, "operation_kinds": kinds, "windows_added": winAdded, "windows_removed": winRemoved})
 }
